@@ -23,6 +23,15 @@ def regen_code(ctx):
         return [{"kind": "translator", "detail": "harness/c06/xlate failed (kvstore/typedvalue.go outside the supported subset, "
                  "or a pointer fact the model relies on no longer holds):\n" + checklib.tail(log, 20)}]
     checklib.write_gen(ctx, out, open(tmp).read())
+    # the point methods of TypedStore (harness/c06/xlate_ts -> Hive/Gen/C06_StoreCode.lean; Hive/Proofs/TypedStoreCode.lean)
+    out2 = os.path.join(checklib.LEAN, "Hive", "Gen", "C06_StoreCode.lean")
+    src2 = os.path.join(ctx.repo, "kvstore", "typedstore.go")
+    tmp2 = os.path.join(ctx.scratch, "C06_StoreCode.lean")
+    rc, log = checklib.sh(["go", "run", "./c06/xlate_ts", src2, tmp2], cwd=checklib.HARNESS, timeout=600)
+    if rc != 0 or not os.path.exists(tmp2):
+        return [{"kind": "translator", "detail": "harness/c06/xlate_ts failed (kvstore/typedstore.go: a point method of TypedStore is outside the "
+                 "supported subset, e.g. calls another store method):\n" + checklib.tail(log, 20)}]
+    checklib.write_gen(ctx, out2, open(tmp2).read())
     return []
 
 
@@ -42,7 +51,7 @@ SPEC = {
                  "C06_skeleton_store_iterate", "C06_skeleton_store_iterate_keys", "C06_skeleton_store_delete_prefix_clear",
                  "C06_skeleton_type_typedvalue", "C06_skeleton_type_typedstore", "C06_skeleton_type_rwmutex",
                  "C06_code_refines_model", "C06_code_coherent_failure_atomic", "C06_code_lock_discipline",
-                 "C06_code_upgrade_window", "C06_code_serialised", "C06_compute_ownership", "C06_compute_argument_fresh", "C06_linearizable_judge", "C06_linearizable", "C06_no_deadlock", "C06_dirty_store_failure", "C06_dirty_store_witness"],
+                 "C06_code_upgrade_window", "C06_code_serialised", "C06_compute_ownership", "C06_compute_argument_fresh", "C06_linearizable_judge", "C06_linearizable", "C06_no_deadlock", "C06_dirty_store_failure", "C06_dirty_store_witness", "C06_store_code_refines_model"],
     "trusted_base": ["TypedValue (sequential): translator harness/c06/xlate (go/ast -> statement language, ~500 lines) and the language's semantics "
                      "Hive/Model/TypedCode.lean; the hand-written model Hive/Model/TypedValue.lean is PROVED equal to the translated method bodies "
                      "(C06_code_refines_model); translator + semantics are cross-checked on every run by executing the translated term against the real code",
